@@ -5,6 +5,9 @@ package remote
 
 import (
 	"context"
+	"runtime"
+	"sync"
+	"sync/atomic"
 	"time"
 
 	proxyv1alpha1 "github.com/kubewharf/kubegateway/pkg/apis/proxy/v1alpha1"
@@ -119,4 +122,186 @@ func VerifDumpRemote(c FlowControlCache) VerifDump {
 		d.QPS, d.Burst = w.qps, w.burst
 	}
 	return d
+}
+
+// ---------------------------------------------------------------------------------------------------------------
+// the request side: globalCounterManager / globalCounter
+
+// VerifLastSyncMark is what the harness leaves in globalCounter.lastSyncTime between operations: any other value
+// found there afterwards was written by the real code (resetCheck at creation, send after an answer).
+const VerifLastSyncMark = int64(-7777777)
+
+var verifQuiesced sync.Map // *globalCounter -> true
+
+func verifCounter(c FlowControlCache) *globalCounter {
+	fc := c.(*flowControlCache)
+	g, ok := fc.globalCounter.(*globalCounterManager)
+	if !ok {
+		return nil
+	}
+	g.lock.Lock()
+	defer g.lock.Unlock()
+	return g.counterMap[fc.name]
+}
+
+// VerifSettleCounter waits for the asynchronous removal of the counter after the remote wrapper was stopped
+// (Add's goroutine calls Stop(name) when remoteWrapper.Done() is closed).
+func VerifSettleCounter(c FlowControlCache) {
+	fc := c.(*flowControlCache)
+	if fc.remote != nil {
+		return
+	}
+	for i := 0; i < 3000 && verifCounter(c) != nil; i++ {
+		runtime.Gosched()
+		if i > 1000 {
+			time.Sleep(10 * time.Microsecond)
+		}
+	}
+}
+
+// VerifCounter: does the counter exist, is it new (never seen by the harness before), is an event pending, and what
+// is in lastSyncTime. A new counter's resetCheck goroutine (wall-clock ticker; it injects a "timeout" reply after 4 s
+// without an answer) is stopped here — after it has stored the creation time — by closing the channel it selects on;
+// the counter gets a fresh stopCh for the real Stop(name) to close later.
+func VerifCounter(c FlowControlCache) (exists, isNew, event bool, lastSync int64) {
+	cn := verifCounter(c)
+	if cn == nil {
+		return false, false, false, 0
+	}
+	if _, seen := verifQuiesced.LoadOrStore(cn, true); !seen {
+		isNew = true
+		for i := 0; atomic.LoadInt64(&cn.lastSyncTime) == 0 && i < 2000000; i++ {
+			runtime.Gosched()
+		}
+		g := c.(*flowControlCache).globalCounter.(*globalCounterManager)
+		g.lock.Lock()
+		old := cn.stopCh
+		cn.stopCh = make(chan struct{})
+		close(old)
+		g.lock.Unlock()
+	}
+	return true, isNew, len(cn.eventCh) > 0, atomic.LoadInt64(&cn.lastSyncTime)
+}
+
+func VerifSetLastSync(c FlowControlCache, v int64) {
+	if cn := verifCounter(c); cn != nil {
+		atomic.StoreInt64(&cn.lastSyncTime, v)
+	}
+}
+
+// VerifRaiseEvent is what a request through the count wrapper does: globalCounter.Count.
+func VerifRaiseEvent(c FlowControlCache) {
+	if cn := verifCounter(c); cn != nil {
+		cn.Count(0)
+	}
+}
+
+// VerifSetEvent makes the event flag what it was before the harness's capacity probes (they call Count too).
+func VerifSetEvent(c FlowControlCache, pending bool) {
+	cn := verifCounter(c)
+	if cn == nil {
+		return
+	}
+	select {
+	case <-cn.eventCh:
+	default:
+	}
+	if pending {
+		select {
+		case cn.eventCh <- struct{}{}:
+		default:
+		}
+	}
+}
+
+// VerifAcquireRequest runs the real globalCounterManager.acquireRequest as of the virtual time vnow (ns):
+// lastSyncTime is set so that time.Now().Unix() - lastSyncTime equals sinceSyncS, and a token-bucket wrapper's
+// lastAcquireTime (a virtual time) is moved into the real clock's frame for the duration of the call.
+// Returns whether a request for the flow control was built, its Tokens, and whether the wall clock's second changed
+// during the call (the caller then discards the case).
+func VerifAcquireRequest(c FlowControlCache, vnow int64, sinceSyncS int64) (sent bool, tokens int32, req *proxyv1alpha1.RateLimitAcquireRequest, unreliable bool) {
+	fc := c.(*flowControlCache)
+	g := fc.globalCounter.(*globalCounterManager)
+	cn := verifCounter(c)
+	for time.Now().Nanosecond() > 990000000 {
+		time.Sleep(time.Millisecond)
+	}
+	sec := time.Now().Unix()
+	if cn != nil {
+		atomic.StoreInt64(&cn.lastSyncTime, sec-sinceSyncS)
+	}
+	var tb *tokenBucketWrapper
+	var saved int64
+	if fc.remote != nil {
+		if w, ok := fc.remote.GlobalCounterFlowControl.(*tokenBucketWrapper); ok {
+			tb = w
+			saved = atomic.LoadInt64(&w.lastAcquireTime)
+			atomic.StoreInt64(&w.lastAcquireTime, time.Now().UnixNano()-(vnow-saved))
+		}
+	}
+	_, m := g.acquireRequest(vnow)
+	if tb != nil {
+		atomic.StoreInt64(&tb.lastAcquireTime, saved)
+	}
+	if cn != nil {
+		atomic.StoreInt64(&cn.lastSyncTime, VerifLastSyncMark)
+	}
+	unreliable = time.Now().Unix() != sec
+	if r := m[fc.name]; r != nil {
+		return true, r.Tokens, r, unreliable
+	}
+	return false, 0, nil, unreliable
+}
+
+// VerifSend delivers the limiter server's result for a request the way doAcquire does: globalCounter.send.
+func VerifSend(c FlowControlCache, req *proxyv1alpha1.RateLimitAcquireRequest, accept bool, limit int32, errMsg string, requestTime int64) {
+	cn := verifCounter(c)
+	if cn == nil {
+		return
+	}
+	fc := c.(*flowControlCache)
+	cn.send(&AcquireResult{
+		request:     req,
+		result:      &proxyv1alpha1.RateLimitAcquireResult{FlowControl: fc.name, Accept: accept, Limit: limit, Error: errMsg},
+		requestTime: requestTime,
+	})
+}
+
+// VerifHasRemote: does the cache hold a remote wrapper?
+func VerifHasRemote(c FlowControlCache) bool { return c.(*flowControlCache).remote != nil }
+
+// VerifDrainStops: every globalCounterManager.Add started a goroutine that calls Stop(name) once the remote wrapper
+// it was given is stopped — asynchronously, by name: run late it would stop the counter of a LATER remote wrapper.
+// After the remote wrapper was stopped the harness waits for those k calls: it offers a dummy counter under the name
+// k times and waits until each has been stopped and removed.
+func VerifDrainStops(c FlowControlCache, k int) bool {
+	fc := c.(*flowControlCache)
+	g, ok := fc.globalCounter.(*globalCounterManager)
+	if !ok {
+		return true
+	}
+	for ; k > 0; k-- {
+		g.lock.Lock()
+		if g.counterMap[fc.name] == nil {
+			g.counterMap[fc.name] = &globalCounter{name: fc.name, stopCh: make(chan struct{}), eventCh: make(chan struct{}, 1), manager: g}
+		}
+		g.lock.Unlock()
+		gone := false
+		for i := 0; i < 3000; i++ {
+			g.lock.Lock()
+			gone = g.counterMap[fc.name] == nil
+			g.lock.Unlock()
+			if gone {
+				break
+			}
+			runtime.Gosched()
+			if i > 1000 {
+				time.Sleep(5 * time.Microsecond)
+			}
+		}
+		if !gone {
+			return false
+		}
+	}
+	return true
 }
